@@ -3,40 +3,118 @@
 import json, os, random
 from verif.core import Infra
 META = dict(
-    technique="TLA+ negotiation table (CompressNegotiation.tla) enumerated and meta-checked by TLC, every case replayed through a real Server wrapped by CompressHandler*/CompressHandlerBrotli* and decoded with independent decoders (B3); TLC exhaustive model check of Stackless.tla (bounded queue, workers, caller-side wrapper; ExactlyOnce) incl. an unsafe-wrapper self-test; stackless.NewFunc saturated for certain with a harness-owned function, exec/return log validated by TLC (B2); saturation recipe on the real codecs (first call at GOMAXPROCS(1), then >= 3 x 2048 simultaneous Append*/Write*Level calls) with round-trip checks; StacklessWriter.tla (one pooled writer serving several streams with healthy / failing destinations, NoCarry) model-checked and its behaviours replayed on the real stackless.Writer (B1), plus fault sequences through Write*Level and abandoned streamed CompressHandler responses",
+    technique="TLA+ negotiation table (CompressNegotiation.tla) enumerated and meta-checked by TLC, every case replayed through a real Server wrapped by CompressHandler*/CompressHandlerBrotli* and decoded with independent decoders (B3); TLC exhaustive model check of Stackless.tla (bounded queue, workers, caller-side wrapper; ExactlyOnce) incl. an unsafe-wrapper self-test; stackless.NewFunc saturated for certain with a harness-owned function, exec/return log validated by TLC (B2); saturation recipe on the real codecs (first call at GOMAXPROCS(1), then >= 3 x 2048 simultaneous Append*/Write*Level calls) with round-trip checks; StacklessWriter.tla (one pooled writer serving several streams with healthy / failing destinations, NoCarry) model-checked and its behaviours replayed on the real stackless.Writer (B1), plus fault sequences through Write*Level and abandoned streamed CompressHandler responses; CompressPools.tla (per-coding writer pools indexed by normalised level, PoolTyped/OutInv) with all call histories (coding, level index, entry point Append*/Write*Level to a plain writer/streamed response) on one level index replayed at GOMAXPROCS(1), each output decoded by the decoder of its declared coding",
     design_ref="DESIGN.md §4 C22",
-    text="Negotiation: all Accept-Encoding lists of <= N distinct members over {gzip, deflate, br, zstd, identity, compress, gzip;q=0} (both ', ' and ',' separators, or absent) x wrapper x buffered/streamed x sizes {0,199,200,5000} x compressible/incompressible type x pre-set Content-Encoding, random levels incl. out-of-range; the response's declared encoding must be in the table's allowed set, carry Vary when compressed, and decode to the wrapped handler's body (multi-MiB bodies included). Queue: Stackless.tla is model-checked for 4 callers, 1 worker, Q in {1,2}; the real stackless.NewFunc (capacity fixed at 2048 by GOMAXPROCS(1)) is driven past saturation and every exec/return event is validated against the spec; the four codecs are saturated the same way and every call that reports success must round-trip. Pooled writers: StacklessWriter.tla says a failed hand-over drops the buffered output and Reset starts the next stream empty (NoCarry); all operation sequences of 5-6 steps over 3 streams x destination kinds {ok, fails always, fails after its first write} are replayed on stackless.NewWriter, and at GOMAXPROCS(1) every codec is driven through failing-then-healthy destination sequences and abandoned-then-complete streamed responses: the healthy one must decode to its own body.",
+    text="Negotiation: all Accept-Encoding lists of <= N distinct members over {gzip, deflate, br, zstd, identity, compress, gzip;q=0} (both ', ' and ',' separators, or absent) x wrapper x body setter {SetBody, SetBodyString, AppendBody, SetBodyRaw, Write, WriteString, SetBodyStream, SetBodyStreamWriter} x sizes {0,199,200,5000} x compressible/incompressible type x pre-set Content-Encoding, random levels incl. out-of-range; the response's declared encoding must be in the table's allowed set, carry Vary when compressed, and decode to the wrapped handler's body (multi-MiB bodies included). Queue: Stackless.tla is model-checked for 4 callers, 1 worker, Q in {1,2}; the real stackless.NewFunc (capacity fixed at 2048 by GOMAXPROCS(1)) is driven past saturation and every exec/return event is validated against the spec; the four codecs are saturated the same way and every call that reports success must round-trip. Pooled writers: StacklessWriter.tla says a failed hand-over drops the buffered output and Reset starts the next stream empty (NoCarry); all operation sequences of 5-6 steps over 3 streams x destination kinds {ok, fails always, fails after its first write} are replayed on stackless.NewWriter, and at GOMAXPROCS(1) every codec is driven through failing-then-healthy destination sequences and abandoned-then-complete streamed responses: the healthy one must decode to its own body.",
     note="Trusted: independent decoders (compress/gzip, compress/zlib, andybalholm/brotli, klauspost zstd DecodeAll); codecs treated as Dec(Enc(x)) = x. Trace validation takes submission/wake-up as composite steps with the logged exec/return (no hook in stackless/func.go was added); whether the queue was really full at a rejection is not checked (a rejection is always allowed). The codec bursts are checked directly (round trip), not by TLC.",
 )
 
 
+def tlc_parallel(ctx, jobs):
+    """jobs: list of (method, args, kwargs) with method in {"tlc_mc", "tlc_gen"}.  Only the TLC processes
+    run concurrently (ctx.tlc in threads, scratch-directory numbering serialised by a lock); afterwards
+    ctx.tlc_mc / ctx.tlc_gen do their normal bookkeeping sequentially on the stored results."""
+    import threading
+    lock = threading.Lock()
+    orig = ctx._specdir
+
+    def specdir(area):
+        with lock:
+            return orig(area)
+    ctx._specdir = specdir
+    raw = [None] * len(jobs)
+
+    def work(i, args, kw):
+        try:
+            raw[i] = ("ok", ctx.tlc(*args, **{k: v for k, v in kw.items() if k != "outfile"}))
+        except BaseException as e:      # replayed in the main thread below
+            raw[i] = ("err", e)
+    ths = [threading.Thread(target=work, args=(i, a, k)) for i, (_, a, k) in enumerate(jobs)]
+    for t in ths:
+        t.start()
+    for t in ths:
+        t.join()
+    del ctx._specdir
+    out = []
+    for (m, args, kw), (st, val) in zip(jobs, raw):
+        def stored(*a, _st=st, _val=val, **k):
+            if _st == "err":
+                raise _val
+            return _val
+        ctx.tlc = stored
+        try:
+            out.append(getattr(ctx, m)(*args, **kw))
+        finally:
+            del ctx.tlc
+    return out
+
+
+def run_codecs(ctx, p, hp):
+    # ---- real codecs: saturation recipe + sequential sweep, the negotiation table through a server, and
+    # fault sequences (failing destination / abandoned streamed response, then a healthy call)
+    try:
+        recs = ctx.go_test(".", ["c22_"], "^TestVerifC22", infile=p, timeout=1700, test_timeout=1600,
+                           env={"VERIF_IN3": hp, "VERIF_C22_BURSTS": ctx.pick(1, 3), "VERIF_C22_BURST_LIGHT": ctx.pick(2048 + 600, 3 * 2048 + 100),
+                                "VERIF_C22_STREAM_ROUNDS": ctx.pick(3, 10)})
+        ctx.absorb(recs)
+    except Infra as e:
+        # a crash of the codec harness is an infrastructure error -- unless the stackless part has
+        # already produced violations from real-code behaviour: those stand (exit 1)
+        if not ctx.violations:
+            raise
+        ctx.log("codec harness failed after violations were recorded: %s" % str(e)[:300])
+        ctx.extra["codec_harness_failed"] = True
+
+
 def run(ctx):
-    # ---- queue model and pooled-writer model
-    for q in ctx.pick([1], [1, 2]):
-        ctx.tlc_mc("util", "Stackless", "StacklessMC.cfg", consts={"Q": q}, workers=4, timeout=900)
-    if not ctx.quick:   # non-vacuity self-tests of the two invariants (thorough tier)
+    # ---- queue model, pooled-writer model, pool-table model, negotiation table: four TLC runs side by side
+    jobs = [("tlc_mc", ("util", "Stackless", "StacklessMC.cfg"), dict(consts={"Q": 1}, workers=2, timeout=900)),
+            ("tlc_gen", ("util", "StacklessWriterGen", "StacklessWriterGen.cfg"), dict(consts={"OPS": ctx.pick(5, 6)}, workers=2, timeout=900)),
+            ("tlc_gen", ("util", "CompressPoolsGen", "CompressPoolsGen.cfg"), dict(consts={"CALLS": ctx.pick(2, 3)}, workers=2, timeout=900)),
+            ("tlc_gen", ("data", "CompressNegotiation", "CompressNegotiation.cfg"),
+             dict(outfile="negvectors.ndjson", consts={"MAXL": ctx.pick(2, 3)}, workers=2, timeout=1500))]
+    _, (_, wbeh), (_, hbeh), (vp, _) = tlc_parallel(ctx, jobs)
+    if not wbeh:
+        raise Infra("StacklessWriterGen produced no behaviours")
+    if not hbeh:
+        raise Infra("CompressPoolsGen produced no histories")
+    if not ctx.quick:
+        ctx.tlc_mc("util", "Stackless", "StacklessMC.cfg", consts={"Q": 2}, workers=4, timeout=900)
+        # non-vacuity self-tests of the three invariants (thorough tier)
         r = ctx.tlc("util", "Stackless", "StacklessUnsafe.cfg", workers=2, timeout=300, allow_codes=tuple(range(256)))
         if "Invariant Inv is violated" not in r["out"]:
             raise Infra("self-test failed: a wrapper that ignores 'queue full' does not violate ExactlyOnce in Stackless.tla")
         r = ctx.tlc("util", "StacklessWriter", "StacklessWriterUnsafe.cfg", workers=2, timeout=300, allow_codes=tuple(range(256)))
         if "Invariant Inv is violated" not in r["out"]:
             raise Infra("self-test failed: a writer that keeps its buffer across a failed hand-over does not violate NoCarry in StacklessWriter.tla")
-    _, wbeh = ctx.tlc_gen("util", "StacklessWriterGen", "StacklessWriterGen.cfg", consts={"OPS": ctx.pick(5, 6)}, workers=4, timeout=900)
-    if not wbeh:
-        raise Infra("StacklessWriterGen produced no behaviours")
+        r = ctx.tlc("util", "CompressPools", "CompressPoolsUnsafe.cfg", workers=2, timeout=300, allow_codes=tuple(range(256)))
+        if "Invariant Inv is violated" not in r["out"]:
+            raise Infra("self-test failed: releasing a writer into another coding's pool does not violate CompressPools.tla")
+    hp = os.path.join(ctx.scratch, "c22_histories.ndjson")
+    with open(hp, "w") as f:
+        for b in hbeh:
+            f.write(json.dumps(b) + "\n")
     wp = os.path.join(ctx.scratch, "c22_writer_beh.ndjson")
     with open(wp, "w") as f:
         for b in wbeh:
             f.write(json.dumps(b) + "\n")
-    # ---- negotiation table
-    vp, _ = ctx.tlc_gen("data", "CompressNegotiation", "CompressNegotiation.cfg", outfile="negvectors.ndjson",
-                        consts={"MAXL": ctx.pick(2, 3)}, workers=2, timeout=900)
+    # ---- negotiation table rows
     if not vp:
         raise Infra("CompressNegotiation wrote no vectors")
     lines = open(vp).read().splitlines()
     total = len(lines)
     random.Random(ctx.seed).shuffle(lines)
-    lines = lines[:ctx.pick(1000, 40000)]
+    if ctx.quick:
+        # sample, but keep every body setter represented among the rows that are expected to compress
+        picked, per = lines[:700], {}
+        for x in lines[700:]:
+            r = json.loads(x)
+            if r["hint"] and per.get(r["setter"], 0) < 40:
+                per[r["setter"]] = per.get(r["setter"], 0) + 1
+                picked.append(x)
+        lines = picked
+    else:
+        lines = lines[:60000]
     p = os.path.join(ctx.scratch, "c22_neg.ndjson")
     open(p, "w").write("\n".join(lines) + "\n")
     # ---- real stackless.NewFunc, saturated (log validated by TLC); real stackless.Writer replaying the
@@ -47,7 +125,35 @@ def run(ctx):
     tf = ctx.extra.pop("trace_file", None)
     if not tf or not os.path.exists(tf):
         raise Infra("stackless harness wrote no trace")
-    ctx.validate_traces("util", "StacklessTrace", tf, label="stackless.NewFunc", dfs=False, timeout=1700)
+    # the log is validated by TLC while the codec harness below builds and runs (the validation thread
+    # takes its scratch directory before the Go run takes its own, so the numbering cannot collide)
+    import threading
+    got_dir, orig_specdir, vres = threading.Event(), ctx._specdir, {}
+
+    def specdir_once(area):
+        try:
+            return orig_specdir(area)
+        finally:
+            got_dir.set()
+    ctx._specdir = specdir_once
+
+    def validate():
+        try:
+            ctx.validate_traces("util", "StacklessTrace", tf, label="stackless.NewFunc", dfs=False, timeout=1700)
+        except BaseException as e:
+            vres["err"] = e
+        finally:
+            got_dir.set()
+    vth = threading.Thread(target=validate)
+    vth.start()
+    got_dir.wait()
+    try:
+        run_codecs(ctx, p, hp)
+    finally:
+        vth.join()
+        del ctx._specdir
+    if "err" in vres:
+        raise vres["err"]
     if not ctx.quick and not ctx.violations:
         # binding self-test: a rejected call forged into a success must make StacklessTrace reject the log
         lines = [json.loads(x) for x in open(tf) if x.strip()]
@@ -66,27 +172,15 @@ def run(ctx):
         if ok:
             raise Infra("self-test failed: StacklessTrace accepted a log in which a rejected call reports success")
         ctx.extra["trace_selftest_rejected_at"] = at
-    # ---- real codecs: saturation recipe + sequential sweep, the negotiation table through a server, and
-    # fault sequences (failing destination / abandoned streamed response, then a healthy call)
-    try:
-        recs = ctx.go_test(".", ["c22_"], "^TestVerifC22", infile=p, timeout=1700, test_timeout=1600,
-                           env={"VERIF_C22_BURSTS": ctx.pick(1, 3), "VERIF_C22_BURST_LIGHT": ctx.pick(2048 + 600, 3 * 2048 + 100),
-                                "VERIF_C22_STREAM_ROUNDS": ctx.pick(3, 10)})
-        ctx.absorb(recs)
-    except Infra as e:
-        # a crash of the codec harness is an infrastructure error -- unless the stackless part has
-        # already produced violations from real-code behaviour: those stand (exit 1)
-        if not ctx.violations:
-            raise
-        ctx.log("codec harness failed after violations were recorded: %s" % str(e)[:300])
-        ctx.extra["codec_harness_failed"] = True
     ctx.exhaustive = (not ctx.quick) and len(lines) == total
     ctx.extra["negotiation_table_size"] = total
     ctx.rule = ("negotiation case = one table row through a real server (non-trivial = the response was compressed); "
                 "codec call = one Append*/Write*Level call (non-trivial = made inside a >= 3 x capacity burst); "
                 "stackless call = one call of the saturated NewFunc wrapper (non-trivial = rejected); "
                 "writer behaviour = one StacklessWriterGen operation sequence replayed on stackless.Writer (non-trivial = has a failing destination); "
-                "fault-sequence case = one Write*Level call / streamed response in a sequence with failing destinations")
+                "fault-sequence case = one Write*Level call / streamed response in a sequence with failing destinations; "
+                "history = one CompressPoolsGen call sequence (coding, level index, entry point) on shared pools (non-trivial = mixes codings)")
     ctx.assumptions = ["queue capacity/worker count fixed by making the first call of each entry point at GOMAXPROCS(1)",
                        "Accept-Encoding members are q-less except the adversarial 'gzip;q=0'",
-                       "quick tier: lists of <= 2 members, 1000 sampled rows; thorough: <= 3 members, all rows"]
+                       "quick tier: lists of <= 2 members, ~1000 sampled rows (every body setter kept among the rows expected to compress); thorough: <= 3 members, 60000 sampled rows",
+                       "histories stay on one level index (where the per-coding pool tables can collide): 2 calls in quick, 3 in thorough"]
